@@ -300,7 +300,7 @@ func TestC24(t *testing.T) {
 		"the model's dependency edges are those Please itself resolves (declared inputs with provide/require substitution as in BuildTarget.ProvideFor)",
 	}
 	bin := lib.PlzBin(false)
-	n := r.Pick(36, 1500)
+	n := r.Pick(24, 1500)
 	dev := os.Getenv("VERIF_DEV") != ""
 	// builtA, when not nil, is the clean build of exactly this A made once in another sandbox (the
 	// directed stream shares one A; generated commands only print relative paths and checksums)
